@@ -1,4 +1,4 @@
-//! Block alphabet for C33: six block templates over two addresses, two asset
+//! Block alphabet for C33: seven block templates over two (+1) addresses, two asset
 //! ids, two contract ids, two scripts and two predicates (plus the default
 //! values, which map to the reserved registry key), every block closed by a mint.
 use crate::model::ModelChain;
@@ -23,7 +23,8 @@ use fuel_core_types::{
 
 #[derive(Clone)]
 pub struct Alphabet {
-    pub addr: [Address; 2],
+    /// two addresses used everywhere plus a third one that only template `abc` introduces
+    pub addr: [Address; 3],
     pub asset: [AssetId; 2],
     pub contract: [ContractId; 2],
     pub script: [Vec<u8>; 2],
@@ -33,12 +34,13 @@ pub struct Alphabet {
 impl Alphabet {
     pub fn new() -> Self {
         Alphabet {
-            addr: [[0xA0u8; 32].into(), [0xA1u8; 32].into()],
+            addr: [[0xA0u8; 32].into(), [0xA1u8; 32].into(), [0xA2u8; 32].into()],
             asset: [[0x50u8; 32].into(), [0x51u8; 32].into()],
             contract: [[0xC0u8; 32].into(), [0xC1u8; 32].into()],
             // `ret $one` / `movi + ret` style byte strings of different length
             script: [vec![0x24, 0x40, 0x00, 0x00], vec![0x72, 0x40, 0x00, 0x07, 0x24, 0x40, 0x00, 0x00]],
-            pred: [vec![0x24, 0x04, 0x00, 0x00], vec![0x10, 0x41, 0x00, 0x40, 0x24, 0x04, 0x00, 0x00, 0x47, 0x00, 0x00, 0x00]],
+            // predicate 1 is byte-identical to script 0: the same bytes live in two keyspaces
+            pred: [vec![0x24, 0x04, 0x00, 0x00], vec![0x24, 0x40, 0x00, 0x00]],
         }
     }
 }
@@ -49,13 +51,14 @@ pub struct Template {
     pub multi: bool,
 }
 
-pub const TEMPLATES: [Template; 6] = [
+pub const TEMPLATES: [Template; 7] = [
     Template { name: "a", multi: false },
     Template { name: "b", multi: false },
     Template { name: "ab", multi: true },
     Template { name: "ba", multi: true },
     Template { name: "default", multi: false },
     Template { name: "mixed", multi: true },
+    Template { name: "abc", multi: true },
 ];
 
 fn b32(tag: u8, n: u32) -> Bytes32 {
@@ -155,7 +158,7 @@ fn sig() -> Witness {
 /// taken from the model chain, messages it consumes are added to it.
 pub fn build_block(a: &Alphabet, t: u8, height: u32, time: u64, chain: &mut ModelChain) -> Block {
     let mut c = Ctx { a, chain, height, n_msg: 0 };
-    let [a0, a1] = a.addr;
+    let [a0, a1, a2] = a.addr;
     let [s0, s1] = a.asset;
     let [c0, c1] = a.contract;
     let mut txs: Vec<Transaction> = match t {
@@ -201,6 +204,14 @@ pub fn build_block(a: &Alphabet, t: u8, height: u32, time: u64, chain: &mut Mode
             let inputs = vec![c.coin_signed(0)];
             vec![c.script(vec![], 8, inputs, vec![Output::coin(Address::zeroed(), 16, AssetId::zeroed()), Output::change(Address::zeroed(), 2, AssetId::zeroed())], vec![sig()])]
         }
+        // both values of every keyspace are used again and a third address is new
+        6 => {
+            let i0 = vec![c.coin_predicate(0), Some(c.contract(c0)), Some(c.contract(c1))];
+            let t0 = c.script(a.script[0].clone(), 12, i0, vec![Output::coin(a0, 18, s0), Output::coin(a1, 19, s1), Output::coin(a2, 20, s0), c.out_contract(1), c.out_contract(2)], vec![]);
+            let i1 = vec![Some(c.msg_coin_predicate(1))];
+            let t1 = c.script(a.script[1].clone(), 13, i1, vec![Output::change(a1, 8, s1)], vec![]);
+            vec![t0, t1]
+        }
         // blob, upload and upgrade transactions; a partial mix of the values
         _ => {
             let i0: Vec<Input> = vec![c.coin_signed(1)].into_iter().flatten().collect();
@@ -225,6 +236,7 @@ pub fn build_block(a: &Alphabet, t: u8, height: u32, time: u64, chain: &mut Mode
         2 => (c0, s1),
         3 => (c1, s0),
         4 => (ContractId::zeroed(), AssetId::zeroed()),
+        6 => (c1, s1),
         _ => (c0, s1),
     };
     let n = txs.len();
@@ -264,4 +276,25 @@ pub fn normalise_tx(tx: &Transaction) -> Transaction {
         }
     }
     t
+}
+
+/// Byte strings used as predicates by the inputs of a block.
+pub fn block_predicates(block: &Block) -> Vec<Vec<u8>> {
+    let mut v = vec![];
+    for tx in block.transactions() {
+        let inputs: &[Input] = match tx {
+            Transaction::Script(t) => t.inputs(),
+            Transaction::Create(t) => t.inputs(),
+            Transaction::Upgrade(t) => t.inputs(),
+            Transaction::Upload(t) => t.inputs(),
+            Transaction::Blob(t) => t.inputs(),
+            Transaction::Mint(_) => &[],
+        };
+        for i in inputs {
+            if let Some(p) = i.input_predicate() {
+                v.push(p.to_vec());
+            }
+        }
+    }
+    v
 }
